@@ -11,7 +11,9 @@ import (
 	"go/ast"
 	"go/parser"
 	"go/token"
+	"os"
 	"path/filepath"
+	"sort"
 	"strings"
 )
 
@@ -260,6 +262,176 @@ func genEventBus(outDir string) (string, error) {
 	exportedDelegate := delegates("Subscribe", "subscribe")
 	exportedDelegate = delegates("Unsubscribe", "unsubscribe") && exportedDelegate
 
+	// ---- Publish blocks on nothing but the two mutexes: every call is on a white list, there is no channel
+	//      operation, no select, no function literal, no defer, and the only `go` statement starts HandleEvent
+	blocksOnlyOnMutexes := false
+	if fd := findFunc(f, "events", "Publish"); fd != nil {
+		allowed := map[string]bool{"call:make": true, "call:len": true, "call:copy": true, "call:r.mu.Lock": true, "call:r.mu.Unlock": true,
+			"call:r.muHandle.Lock": true, "call:r.muHandle.Unlock": true, "call:item.Handler.HandleEvent": true, "go:item.Handler.HandleEvent": true}
+		bad := []string{}
+		for _, c := range allCalls(fd) {
+			if !allowed[c] {
+				bad = append(bad, c)
+			}
+		}
+		ast.Inspect(fd.Body, func(n ast.Node) bool {
+			switch x := n.(type) {
+			case *ast.UnaryExpr:
+				if x.Op == token.ARROW {
+					bad = append(bad, "channel receive")
+				}
+			case *ast.SendStmt:
+				bad = append(bad, "channel send")
+			case *ast.SelectStmt:
+				bad = append(bad, "select")
+			case *ast.FuncLit:
+				bad = append(bad, "function literal")
+			case *ast.DeferStmt:
+				bad = append(bad, "defer")
+			case *ast.RangeStmt:
+				if t, ok := x.X.(*ast.Ident); ok && t.Obj != nil {
+					if vs, ok := t.Obj.Decl.(*ast.ValueSpec); ok && vs.Type != nil {
+						if _, isChan := vs.Type.(*ast.ChanType); isChan {
+							bad = append(bad, "range over channel")
+						}
+					}
+				}
+			}
+			return true
+		})
+		blocksOnlyOnMutexes = len(bad) == 0
+		if !blocksOnlyOnMutexes {
+			note("Publish: operations outside the white list (possible blocking): %s", strings.Join(bad, ", "))
+		}
+	}
+	// ---- the bus's state is the two mutexes and the handler list
+	stateIsMutexesAndList := false
+	for _, d := range f.Decls {
+		gd, ok := d.(*ast.GenDecl)
+		if !ok {
+			continue
+		}
+		for _, sp := range gd.Specs {
+			ts, ok := sp.(*ast.TypeSpec)
+			if !ok || ts.Name.Name != "events" {
+				continue
+			}
+			st, ok := ts.Type.(*ast.StructType)
+			if !ok {
+				continue
+			}
+			var fields []string
+			for _, fl := range st.Fields.List {
+				for _, n := range fl.Names {
+					fields = append(fields, n.Name+":"+exprString(fl.Type))
+				}
+				if len(fl.Names) == 0 {
+					fields = append(fields, "embedded:"+exprString(fl.Type))
+				}
+			}
+			sort.Strings(fields)
+			got := strings.Join(fields, ",")
+			stateIsMutexesAndList = got == "handlers:*ast.ArrayType,mu:sync.Mutex,muHandle:sync.Mutex"
+			if !stateIsMutexesAndList {
+				note("type events has fields other than mu, muHandle (sync.Mutex) and handlers: %s", got)
+			}
+		}
+	}
+
+	// ---- spine/device_local.go: the local device subscribes itself at core level on EVERY SetupRemoteDevice
+	//      (plain top-level statement) and unsubscribes only when no peer is left; no other site touches the core level
+	coreEverySetup, coreUnsubOnlyWhenEmpty, coreSites := false, false, false
+	if fdl, err := parser.ParseFile(fset, filepath.Join(RepoDir(), "spine", "device_local.go"), nil, 0); err != nil {
+		note("spine/device_local.go: %v", err)
+	} else {
+		isCoreCall := func(e ast.Expr, name string) bool {
+			c, ok := e.(*ast.CallExpr)
+			return ok && exprString(c.Fun) == "Events."+name && len(c.Args) == 2 && exprString(c.Args[0]) == "api.EventHandlerLevelCore" && exprString(c.Args[1]) == "r"
+		}
+		if fd := findFunc(fdl, "DeviceLocal", "SetupRemoteDevice"); fd != nil {
+			top, anywhere := 0, 0
+			for _, st := range fd.Body.List {
+				switch x := st.(type) {
+				case *ast.AssignStmt:
+					if len(x.Rhs) == 1 && isCoreCall(x.Rhs[0], "subscribe") {
+						top++
+					}
+				case *ast.ExprStmt:
+					if isCoreCall(x.X, "subscribe") {
+						top++
+					}
+				}
+			}
+			ast.Inspect(fd.Body, func(n ast.Node) bool {
+				if e, ok := n.(ast.Expr); ok && isCoreCall(e, "subscribe") {
+					anywhere++
+				}
+				return true
+			})
+			coreEverySetup = top == 1 && anywhere == 1
+		}
+		if !coreEverySetup {
+			note("SetupRemoteDevice does not subscribe the local device at core level by one unconditional top-level statement")
+		}
+		if fd := findFunc(fdl, "DeviceLocal", "RemoveRemoteDevice"); fd != nil {
+			guarded, total := 0, 0
+			emptyCond := func(e ast.Expr) bool {
+				if be, ok := e.(*ast.BinaryExpr); ok && be.Op == token.EQL {
+					if c, ok := be.X.(*ast.CallExpr); ok && exprString(c.Fun) == "len" && len(c.Args) == 1 && exprString(c.Args[0]) == "r.remoteDevices" {
+						if l, ok := be.Y.(*ast.BasicLit); ok && l.Value == "0" {
+							return true
+						}
+					}
+				}
+				return false
+			}
+			flags := map[string]bool{} // identifiers defined as len(r.remoteDevices) == 0
+			ast.Inspect(fd.Body, func(n ast.Node) bool {
+				if as, ok := n.(*ast.AssignStmt); ok && len(as.Lhs) == 1 && len(as.Rhs) == 1 && emptyCond(as.Rhs[0]) {
+					flags[exprString(as.Lhs[0])] = true
+				}
+				return true
+			})
+			ast.Inspect(fd.Body, func(n ast.Node) bool {
+				if e, ok := n.(ast.Expr); ok && isCoreCall(e, "unsubscribe") {
+					total++
+				}
+				if is, ok := n.(*ast.IfStmt); ok && is.Else == nil && (emptyCond(is.Cond) || flags[exprString(is.Cond)]) {
+					ast.Inspect(is.Body, func(m ast.Node) bool {
+						if e, ok := m.(ast.Expr); ok && isCoreCall(e, "unsubscribe") {
+							guarded++
+						}
+						return true
+					})
+				}
+				return true
+			})
+			coreUnsubOnlyWhenEmpty = total == 1 && guarded == 1
+		}
+		if !coreUnsubOnlyWhenEmpty {
+			note("RemoveRemoteDevice does not unsubscribe the local device exactly once, under `len(r.remoteDevices) == 0`")
+		}
+		// no other site in package spine (tests and the verif hook file aside) calls the unexported subscribe / unsubscribe
+		sub, unsub := 0, 0
+		files, _ := filepath.Glob(filepath.Join(RepoDir(), "spine", "*.go"))
+		for _, fn := range files {
+			base := filepath.Base(fn)
+			if strings.HasSuffix(base, "_test.go") || strings.HasPrefix(base, "verif_hooks") || base == "events.go" {
+				continue
+			}
+			src, err := os.ReadFile(fn)
+			if err != nil {
+				continue
+			}
+			sub += strings.Count(string(src), "Events.subscribe(")
+			unsub += strings.Count(string(src), "Events.unsubscribe(")
+		}
+		coreSites = sub == 1 && unsub == 1
+		if !coreSites {
+			note("package spine calls Events.subscribe %d times and Events.unsubscribe %d times outside events.go (expected 1 and 1, in device_local.go)", sub, unsub)
+		}
+	}
+
 	var b strings.Builder
 	b.WriteString("/-! GENERATED by go/cmd/translate (generator `eventbus`) from spine/events.go — do not edit. -/\n")
 	b.WriteString("namespace Spine.Generated.EventBus\n\n")
@@ -276,6 +448,11 @@ func genEventBus(outDir string) (string, error) {
 	w("subscribe is one critical section under mu: Lock first, Unlock deferred, no other lock, no callback", "subscribeOnlyMu", subscribeOnlyMu)
 	w("unsubscribe is one critical section under mu: Lock first, Unlock deferred, no other lock, no callback", "unsubscribeOnlyMu", unsubscribeOnlyMu)
 	w("the exported Subscribe / Unsubscribe only delegate to subscribe / unsubscribe at application level", "exportedDelegate", exportedDelegate)
+	w("every operation in Publish is on the white list {make, len, copy, the four mutex operations, HandleEvent plain and with `go`}: no WaitGroup / Cond wait, no channel operation, no select, no function literal, no defer — Publish blocks on nothing but mu and muHandle", "publishBlocksOnlyOnTheTwoMutexes", blocksOnlyOnMutexes)
+	w("the state of the bus is exactly mu, muHandle (sync.Mutex) and the handler list", "stateIsTwoMutexesAndList", stateIsMutexesAndList)
+	w("spine/device_local.go: SetupRemoteDevice subscribes the local device at core level by one unconditional top-level statement (on every call)", "coreSubscribedOnEverySetup", coreEverySetup)
+	w("spine/device_local.go: RemoveRemoteDevice unsubscribes the local device exactly once, under `len(r.remoteDevices) == 0`", "coreUnsubscribedOnlyWhenNoPeerLeft", coreUnsubOnlyWhenEmpty)
+	w("no other site of package spine calls the unexported Events.subscribe / Events.unsubscribe", "coreLevelSitesAreThoseTwo", coreSites)
 	for _, n := range notes {
 		fmt.Fprintf(&b, "-- note: %s\n", n)
 	}
@@ -284,5 +461,5 @@ func genEventBus(outDir string) (string, error) {
 		return "", err
 	}
 	return fmt.Sprintf("muReleasedBeforeMuHandle=%v muHandleSpansDispatch=%v fourLockOps=%v snapshotIsCopy=%v coreSync=%v appAsync=%v coreFirst=%v subscribeOnlyMu=%v unsubscribeOnlyMu=%v delegate=%v notes=%d",
-		muUnlockBeforeHandleLock, handleSpansDispatch, publishOnlyTwoLocks, snapshotIsCopy, coreSync, appAsync, coreFirst, subscribeOnlyMu, unsubscribeOnlyMu, exportedDelegate, len(notes)), nil
+		muUnlockBeforeHandleLock, handleSpansDispatch, publishOnlyTwoLocks, snapshotIsCopy, coreSync, appAsync, coreFirst, subscribeOnlyMu, unsubscribeOnlyMu, exportedDelegate, len(notes)) + fmt.Sprintf(" blocksOnlyOnMutexes=%v state=%v coreEverySetup=%v coreUnsubWhenEmpty=%v coreSites=%v", blocksOnlyOnMutexes, stateIsMutexesAndList, coreEverySetup, coreUnsubOnlyWhenEmpty, coreSites), nil
 }
